@@ -706,18 +706,12 @@ def _map(t: MapT, d, ctx, cons):
             kv = _c(t.k, k, ctx, {})
         except Rejected as r:
             e.add(r.e)
-        if not e:
-            # the implementation stops at the key error for this item; a value error is then
-            # not reported.  One entry per item with a violated rule is what is compared.
-            try:
-                vv = _c(t.v, x, ctx, {})
-            except Rejected as r:
-                e.add(r.e)
-        else:
-            try:
-                _c(t.v, x, ctx, {})
-            except Rejected:
-                raise Unspecified("both key and value of one item invalid")
+        # key and value are two rules of the same item: both are reported at the item's location
+        # (key messages first), an invalid key does not hide the errors of the value
+        try:
+            vv = _c(t.v, x, ctx, {})
+        except Rejected as r:
+            e.add(r.e)
         if e:
             children[k] = e
         else:
